@@ -121,6 +121,11 @@ class Builder:
             self.objs[h['f']].is_abstract = not self.objs[h['f']].is_abstract
         elif a == 'EditAttrVal':
             self.objs[h['f']].get_attributes()[h['k'] - 1].set_default_value(untok(h['val']))
+        elif a == 'EditAttrName':
+            self.objs[h['f']].get_attributes()[h['k'] - 1].set_name(nm.conc(h['n']))
+        elif a == 'EditRemoveAttr':
+            f = self.objs[h['f']]
+            f.set_attributes([x for i, x in enumerate(f.get_attributes()) if i != h['k'] - 1])
         elif a == 'EditRemoveCtc':
             self.model.ctcs.pop(h['i'] - 1)
         elif a == 'EditCtcOp':
